@@ -52,6 +52,11 @@ def use_placeholder_singleton(t, rng, p=0.5):
     return t
 
 
+MID_REFUSED = ["[10 90]", "price:[10 90]", "f:[a b]", "{1 2}", "[a TO", "f:[1 TO 2", "f:{1", "[", "(a b", "(a OR", "((a)",
+               "a AND", "a OR", "NOT", "f:", "f:(a", "f:(a AND", '"abc', "/re", "+", "-", "a:b:", "a AND AND b", "a )",
+               "[1 TO 2 3]", "a^ ^", "< ", ">=", "f:[* TO", "[a TO b", "x [1 2] y", "(a [b c)"]
+
+
 def parsed_tree(ctx, rng, **kw):
     """json of a tree obtained by parsing a generated query (None if the query is rejected)"""
     from . import parsing
@@ -61,9 +66,16 @@ def parsed_tree(ctx, rng, **kw):
             # history: an input refused at once (nothing but blanks, or blanks and then a character no token starts
             # with, or an operator with nothing before it) goes through the same entry point first — what a parse left
             # behind when it stopped before the first element must not leak into the next tree (seeded C17-G)
-            blanks = "".join(rng.choice(" \t\n\r") for _ in range(rng.randint(1, 4)))
-            parsing.impl_parse(blanks + rng.choice(["", "", "'", "\\", ")", "^2", "~", ":", "AND"]))
-            ctx.count("history: an input refused before its first element")
+            if rng.random() < 0.5:
+                blanks = "".join(rng.choice(" \t\n\r") for _ in range(rng.randint(1, 4)))
+                parsing.impl_parse(blanks + rng.choice(["", "", "'", "\\", ")", "^2", "~", ":", "AND"]))
+                ctx.count("history: an input refused before its first element")
+            else:
+                # ... or in the middle of a construct (an open bracket, a range without its TO, a dangling operator):
+                # whatever mode the lexer or the parser was in must be left behind (seeded C13-G: a flag set by `[`
+                # and cleared only by the TO of the range)
+                parsing.impl_parse(rng.choice(MID_REFUSED))
+                ctx.count("history: an input refused in the middle of a construct")
         q = qg.query()
         r, t = parsing.impl_parse(q)
         if t is not None:
